@@ -210,6 +210,19 @@ class Prop:
             yield dict(desc, nodes=nodes)
 
     def run(self, desc) -> Case:
+        if "hist" not in desc:
+            return self._run(desc)
+        try:
+            return self._run(desc)
+        except Exception as e:  # noqa: BLE001 - the node graph reached through the history cannot even be observed
+            import traceback
+            where = traceback.extract_tb(e.__traceback__)[-1]
+            return Case(desc=desc, coq_input="[]", impl_obs=[-424242], nontrivial=True,
+                        oracle_fail=f"the tree reached through the history cannot be observed: {type(e).__name__}: {e} "
+                                    f"(at {where.filename.rsplit('/', 1)[-1]}:{where.lineno})",
+                        key=H.digest([desc["nodes"], desc.get("hist"), "unobservable"]), stats=dict(nodes=0))
+
+    def _run(self, desc) -> Case:
         hist_fail = None
         try:
             if "hist" in desc:
@@ -364,7 +377,7 @@ class Prop:
                         if r is not None:
                             cross.append([i + 1, j + 1, code])
         obs = [per_node, pairs, num(call(lambda: tree.calc_height())), tree_obs, cross]
-        fail = self.oracle(tree, nodes, obs, lid)
+        fail = self.oracle(tree, nodes, obs, lid) or (NH.typed_consistency(tree) if typed else None)
         coq_in = re.sub(r"\(Tz (\d+) ", lambda m: f"(Tz {local[int(m.group(1))]} ", H.coq_forest(tree._root, U))
         return obs, fail, nodes, coq_in
 
